@@ -91,7 +91,8 @@ def run_driver(v, hbin, driver, name, signature):
     with open(cpath, "w") as w:
         for i in range(driver["n"]):
             d = ddefs[i % len(ddefs)]
-            line = linegen.random_line(rnd, d, driver.get("maxlen", 8), driver.get("mutate", 0.5))
+            line = linegen.random_line(rnd, d, driver.get("maxlen", 8), driver.get("mutate", 0.5),
+                                       extras=driver.get("extras", ()))
             env = linegen.random_env(rnd, d)
             w.write(json.dumps({"def": d["id"], "line": line, "env": env}) + "\n")
             n += 1
